@@ -8,6 +8,8 @@
 #include <errno.h>
 #include <sys/time.h>
 #include <ctype.h>
+#include <fcntl.h>
+#include <sys/mman.h>
 
 run_t R;
 
@@ -270,8 +272,10 @@ int fault_next(int call)
 }
 void fault_unget(int call) { (void)call; }
 
+static void batch_flush(void);
 static void print_stats(void)
 {
+    batch_flush();
     printf("STATS runs=%llu ops=%llu steps=%llu simus=%llu skips=%llu moves=%llu inplace=%llu reuses=%llu allocs=%llu frees=%llu oos_mem=%llu",
            (unsigned long long)total_runs, (unsigned long long)total_ops, (unsigned long long)total_steps,
            (unsigned long long)total_simus, (unsigned long long)total_skips,
@@ -287,8 +291,41 @@ static void print_stats(void)
 /* ------------------------------------------------------------------ verdicts */
 const char *cur_kind(void) { return R.cur_op ? R.cur_op->kind : "-"; }
 
+/* Batch mode (SIM_BATCH=1, used by the supervisor's search): runs that end OK are not reported one line and one
+ * write() each but collected -- seed range, totals and one "hash+flag" entry per run -- and flushed every BATCH_MAX
+ * runs and before anything else is printed.  The seed being executed is kept in a small shared file (SIM_PROGRESS)
+ * so that the supervisor can name it even if the process is killed outright. */
+#define BATCH_MAX 512
+static int batch_mode;
+static char batch_buf[BATCH_MAX * 17 + 8];
+static size_t batch_n;
+static uint64_t batch_first, batch_last, batch_ops, batch_steps, batch_simus;
+static volatile uint64_t *progress_word;
+static void batch_flush(void)
+{
+    if (!batch_n) return;
+    printf("OKS %llu %llu %zu %llu %llu %llu ", (unsigned long long)batch_first, (unsigned long long)batch_last, batch_n,
+           (unsigned long long)batch_ops, (unsigned long long)batch_steps, (unsigned long long)batch_simus);
+    fwrite(batch_buf, 1, batch_n * 17, stdout);
+    putchar('\n');
+    fflush(stdout);
+    batch_n = 0; batch_ops = batch_steps = batch_simus = 0;
+}
+static void batch_add(void)
+{
+    static const char hx[] = "0123456789abcdef";
+    char *q = batch_buf + batch_n * 17;
+    uint64_t h = R.trace_hash;
+    if (!batch_n) batch_first = R.plan->seed;
+    batch_last = R.plan->seed;
+    for (int i = 15; i >= 0; i--) { q[i] = hx[h & 15]; h >>= 4; }
+    q[16] = R.plan->nops >= 3 ? 'T' : 't';
+    batch_ops += (uint64_t)R.plan->nops; batch_steps += R.steps; batch_simus += R.clock_us > 0 ? (uint64_t)R.clock_us : 0;
+    if (++batch_n == BATCH_MAX) batch_flush();
+}
 static void end_line(const char *vclass, const char *detail)
 {
+    if (batch_mode) { if (!strcmp(vclass, "OK") && R.plan) { batch_add(); return; } batch_flush(); }
     printf("END %llu %s %016llx ops=%d at=%d steps=%llu simus=%lld%s%s\n",
            (unsigned long long)(R.plan ? R.plan->seed : 0), vclass, (unsigned long long)R.trace_hash,
            R.plan ? R.plan->nops : 0, R.cur_op_index, (unsigned long long)R.steps, (long long)R.clock_us,
@@ -465,9 +502,17 @@ int main(int argc, char **argv)
     if (!strcmp(argv[1], "run") && argc >= 6) {
         uint64_t start = strtoull(argv[3], NULL, 10), count = strtoull(argv[4], NULL, 10), stride = strtoull(argv[5], NULL, 10);
         if (!(e = engine_for(argv[2]))) { fprintf(stderr, "no engine for %s\n", argv[2]); return 2; }
+        batch_mode = getenv("SIM_BATCH") != NULL;
+        if (batch_mode && getenv("SIM_PROGRESS")) {
+            int pfd = open(getenv("SIM_PROGRESS"), O_RDWR | O_CREAT, 0600);
+            if (pfd >= 0 && ftruncate(pfd, 8) == 0) { void *m = mmap(NULL, 8, PROT_READ | PROT_WRITE, MAP_SHARED, pfd, 0); if (m != MAP_FAILED) progress_word = m; }
+            if (pfd >= 0) close(pfd);
+        }
+        if (batch_mode) setvbuf(stdout, NULL, _IOFBF, 1 << 16);
         for (uint64_t i = 0; i < count && !stop_flag; i++) {
             uint64_t seed = start + i * stride;
-            printf("START %llu\n", (unsigned long long)seed);
+            if (progress_word) *progress_word = seed;
+            if (!batch_mode) printf("START %llu\n", (unsigned long long)seed);
             gen_plan(e, argv[2], seed);
             run_plan(e, &g_plan);
         }
